@@ -33,6 +33,19 @@ def draw_plan(rng: random.Random, prop: str = "C17", tier="quick", design_fracti
         if "min_rotation" in cfg["geometry"]:
             cfg["geometry"]["min_rotation"] = rng.uniform(-90.0, -1.0)
             cfg["geometry"]["max_rotation"] = rng.uniform(1.0, 90.0)
+    if cfg["geometry"]["method"] == "ROWWISE" and rng.random() < 0.35:
+        # the schema's bounds themselves (no design is run for RowWise here)
+        if rng.random() < 0.7:
+            cfg["geometry"]["max_rotation"] = 90.0
+        if rng.random() < 0.5:
+            cfg["geometry"]["min_rotation"] = -90.0
+    if rng.random() < 0.3:
+        cfg["fluid"]["temperature"] = rng.choice([2.0, 5.0, 10.0, 30.0])
+    if rng.random() < 0.2:
+        cfg["fluid"] = {"fluid_name": rng.choice(["WATER", "PROPYLENEGLYCOL"]), "concentration_percent": 0.0 if rng.random() < 0.5 else 20.0,
+                        "temperature": cfg["fluid"]["temperature"]}
+        if cfg["fluid"]["fluid_name"] == "WATER":
+            cfg["fluid"]["concentration_percent"] = 0.0
     order = list(gen.SETTERS)
     rng.shuffle(order)
     cheap = cfg["geometry"]["method"] in ("NEARSQUARE", "RECTANGLE") and cfg["simulation"]["num_months"] <= 36
@@ -67,6 +80,57 @@ class Capture:
             yield self
         finally:
             gm.GHEManager.find_design, gm.GHEManager.prepare_results, gm.GHEManager.write_output_files = saved
+
+
+def _file_vs_request(inst: dict, cfg: dict) -> list:
+    """Differences between the written file and the configuration given to the API (floats at 1e-9: RowWise angles go
+    degrees -> radians -> degrees)."""
+    from .kernel import close
+
+    out = []
+
+    def cmp(path, got, want):
+        ok = close(got, want, 1e-9, 1e-9)[0] if not isinstance(want, str) else str(got).upper() == want.upper()
+        if not ok:
+            out.append(f"{path} file={got!r} request={want!r}")
+
+    for key in ("fluid_name", "concentration_percent", "temperature"):
+        cmp(f"fluid.{key}", inst["fluid"].get(key), cfg["fluid"][key])
+    for sec in ("grout", "soil"):
+        for key, v in cfg[sec].items():
+            cmp(f"{sec}.{key}", inst[sec].get(key), v)
+    cmp("borehole.buried_depth", inst["borehole"].get("buried_depth"), cfg["borehole"]["buried_depth"])
+    cmp("borehole.diameter", inst["borehole"].get("diameter"), cfg["borehole"]["diameter"])
+    sim = cfg["simulation"]
+    cmp("simulation.num_months", inst["simulation"].get("num_months"), sim["num_months"])
+    d = inst["design"]
+    cmp("design.flow_rate", d.get("flow_rate"), cfg["design"]["flow_rate"])
+    cmp("design.flow_type", d.get("flow_type"), cfg["design"]["flow_type"])
+    cmp("design.max_eft", d.get("max_eft"), sim["max_eft"])
+    cmp("design.min_eft", d.get("min_eft"), sim["min_eft"])
+    cmp("design.max_boreholes", d.get("max_boreholes"), sim["max_boreholes"])
+    cmp("design.continue_if_design_unmet", bool(d.get("continue_if_design_unmet", False)), bool(sim["continue_if_design_unmet"]))
+    g = inst["geometric_constraints"]
+    cmp("geometric_constraints.max_height", g.get("max_height"), sim["max_height"])
+    cmp("geometric_constraints.min_height", g.get("min_height"), sim["min_height"])
+    for key, v in cfg["geometry"].items():
+        if key.startswith("_"):
+            continue
+        if key == "perimeter_spacing_ratio" and v is None:
+            if g.get(key) is not None:
+                out.append(f"geometric_constraints.{key} file={g.get(key)!r} request=None")
+            continue
+        want = v
+        got = g.get(key)
+        if key in ("property_boundary", "no_go_boundaries") and cfg["geometry"]["method"] == "BIRECTANGLECONSTRAINED":
+            # the API wraps a single outline into a list of outlines
+            if want and isinstance(want[0][0], (int, float)):
+                want = [want]
+        cmp(f"geometric_constraints.{key}", got, want)
+    p = cfg["pipe"]
+    for key, v in p.items():
+        cmp(f"pipe.{key}", inst["pipe"].get(key), v)
+    return out
 
 
 def components(mgr) -> dict:
@@ -143,13 +207,25 @@ def run_plan(plan: dict) -> dict:
                 bump("probe:manager_previously_configured_otherwise")
             f1 = rootp / "f1.json"
             if plan["double_write"] and plan.get("cfg_decoy"):
-                decoy = gen.build_manager(plan["cfg_decoy"])
-                decoy.write_input_file(f1)
-                long_len = f1.stat().st_size
-                bump("fault:overwrite_existing_longer_file")
+                try:
+                    decoy = gen.build_manager(plan["cfg_decoy"])
+                    decoy.write_input_file(f1)
+                    bump("fault:overwrite_existing_longer_file")
+                except Exception:  # noqa: BLE001  (the decoy lot may be one the API rejects; then there is nothing to overwrite)
+                    pass
             mgr1.write_input_file(f1)
             t1 = f1.read_text()
             log.add("save", plan["order"], digest(t1))
+            # 0. the file says what the API was given (a stale shared object would make file and reload agree with each other
+            #    and both disagree with the request)
+            try:
+                inst = json.loads(t1)
+                mism = _file_vs_request(inst, cfg)
+            except Exception as e:  # noqa: BLE001
+                mism = [f"unparsable file: {e}"]
+            if mism:
+                viol("written_file_differs_from_request", f"the written file does not carry the values given to the API: {mism[:4]}",
+                     site=f"{variant}:{mism[0].split(' ')[0]}")
             # 1. schema-valid for the reference validator and for the tool's own
             verdict, why = clisim.ref_validate(t1)
             try:
